@@ -3,6 +3,8 @@ import struct
 import containers
 import id3file_tie
 import dsf_tie
+import asf_tie
+import ogginject_tie
 import apefile_tie
 import formats as F
 import walkers
@@ -407,6 +409,8 @@ def run(ctx):
     order_independence(ctx)
     id3file_tie.run(ctx)
     dsf_tie.run(ctx)
+    asf_tie.run(ctx)
+    ogginject_tie.run(ctx)
     apefile_tie.run(ctx)
 
 
